@@ -535,8 +535,7 @@ pub fn evaluate(c: &ExchangeCase, r: &RunResult, rep: &mut Report, buf_name: &st
         rep.count("backpressure_on");
     }
     rep.sig(hash64(&(format!("{:?}", case), r.sched_sig)));
-    rep.sig(r.sched_sig);
-    rep.add("distinct_interleavings_hint", 1);
+    rep.sig_in("interleaving_signatures", r.sched_sig);
     if rep.want_sample() {
         rep.sample(json!({"case": case, "steps": r.steps, "interleaving_signature": format!("{:016x}", r.sched_sig)}));
     }
